@@ -26,6 +26,7 @@ void igris::vtermxx::newdata(int16_t input_c)
     char c = 0;
     int ret;
     int return_flag = 0;
+    unsigned int cursor_before = 0;
 
     while (return_flag == 0)
     {
@@ -69,6 +70,9 @@ void igris::vtermxx::newdata(int16_t input_c)
                 break;
             }
 
+            // Позиция курсора до обработки символа: от неё отсчитывается
+            // начало строки при перерисовке (READLINE_UPDATELINE).
+            cursor_before = (unsigned int)rl.line().cursor();
             ret = rl.newdata(c);
 
             switch (ret)
@@ -151,9 +155,11 @@ void igris::vtermxx::newdata(int16_t input_c)
                 {
                     if (echo)
                     {
-                        ret = vt100_left(buf, rl.lastsize());
-
-                        write_callback(buf, ret);
+                        if (cursor_before)
+                        {
+                            ret = vt100_left(buf, cursor_before);
+                            write_callback(buf, ret);
+                        }
 
                         write_callback(VT100_ERASE_LINE_AFTER_CURSOR, 3);
                     }
